@@ -389,16 +389,19 @@ pub fn run(ts: &Ts, tk: &Tokens, o: &Opts) -> Summary {
 
 /// Re-execute a call path on a fresh world with the recorder on: one trace, one event per call.
 pub fn record_trace(f: &mut impl Write, tid: usize, o: &Opts, labels: &[String], calls: &[HCall]) {
+    record_trace_m(f, tid, o, labels, calls, &[]);
+}
+
+pub fn record_trace_m(f: &mut impl Write, tid: usize, o: &Opts, labels: &[String], calls: &[HCall], mirror: &[bool]) {
     let mut w = World::new(o.n, o.cap, o.scratch.clone());
     w.labels = labels.to_vec();
-    writeln!(f, "{}", json!({"op":"reset","t":tid,"h":0,"n":o.n,"cap":o.cap})).unwrap();
-    for c in calls {
-        let before = w.gs.get(c.h).and_then(|x| x.as_ref()).map(|g| g.snap());
-        let ret = w.exec(c);
-        let after = w.gs.get(c.h).and_then(|x| x.as_ref()).map(|g| g.snap());
-        let e = w.event(tid, c, &ret, before == after);
-        writeln!(f, "{e}").unwrap();
-        if ret.is_panic() {
+    let mut rec = crate::drive::Recorder { out: f, tid, events: 0, mirror_next: false };
+    rec.reset(&w);
+    for (i, c) in calls.iter().enumerate() {
+        if mirror.get(i).copied().unwrap_or(false) {
+            rec.mirror_next = true;
+        }
+        if !rec.call(&mut w, c.clone()) {
             break;
         }
     }
